@@ -14,6 +14,7 @@ import random
 
 from scen import Scn
 import scenario_common as sc
+import mcrapid
 
 EVSETS = [[], ["INVOKE"], ["SHUTDOWN"], ["INVOKE", "SHUTDOWN"], ["INVOKE", "BOGUS"]]
 IDC = ["", "", "", "missing", "invalid", "unknown"]
@@ -91,6 +92,8 @@ def scenarios(ctx):
 
 def run(ctx):
     ctx.level = "model_checking"
+    # E1: the property predicates as invariants of the composite (spec/MC_Rapid.tla)
+    mcrapid.check(ctx, ['NoCrash'])
     ctx.assumptions += sc.ASSUME
     sc.run_families(ctx, scenarios(ctx), "chaos", require_done=True)
     ctx.coverage["exhaustive"] = False
